@@ -454,6 +454,47 @@ func (c *Ctx) ord7() {
 		}
 	}
 	dctx.done(2, "the context is c.ctx, wrapped in WithTimeout(PauseTimeout) when that is non-zero")
+
+	// a dial that fails because the client was closed reports that, not the
+	// dialer's view of it: connect tells the two apart by the returned value
+	// (context.Canceled → ErrClosed, anything else → connDown and a retry)
+	cerr := c.acc("ORD-7", dial, "client-context-ended⇒its-error-is-returned")
+	for _, p := range c.Paths("ORD-7", dial) {
+		if p.End != pathx.KReturn {
+			continue
+		}
+		last := len(p.Events) - 1
+		res := p.Events[last].Results
+		if len(res) == 0 {
+			continue
+		}
+		for i := range p.Events {
+			e := &p.Events[i]
+			if e.Kind != pathx.KCall || e.Method == nil || e.Method.Name() != "Err" || len(e.Args) == 0 || roleKey(e.Args[0]) != "Client.ctx" || !c.inRegion(dial, e) {
+				continue
+			}
+			rel, _, ok := p.Known(e.Result, i, last)
+			if !ok || rel != pathx.RNotNil {
+				continue
+			}
+			// the very next decision is the return of that error
+			onlyAssumes := true
+			for j := i + 1; j < last; j++ {
+				if ev := &p.Events[j]; ev.Kind == pathx.KCall && !ev.Deferred {
+					onlyAssumes = false
+				}
+			}
+			if !onlyAssumes {
+				continue
+			}
+			if stripConv(res[len(res)-1]) == stripConv(e.Result) {
+				cerr.pass()
+			} else {
+				cerr.fail(p, last, "the client's context reports an error (Close or Disconnect during the dial), yet %s is returned instead of it: connect takes the interruption for a failed attempt — connDown, a retry, and ReadSlices returns a dial error where ErrClosed is due", Expr(res[len(res)-1]))
+			}
+		}
+	}
+	cerr.done(1, "the return behind c.ctx.Err() != nil carries that error")
 }
 
 func pathxDialResult(p *pathx.Path) ssa.Value {
